@@ -494,6 +494,23 @@ def guard_rules(repo, rep):
     guards.guard_rule(rep, 'R-GUARD', f, evg.raise_conds, domain, 'the accepted grid domain (zones 0..60, eastings -2 830 000..3 830 000 m, northings 0..10 000 000 m)',
                       lambda nd: where(f, nd), integer=('zone',))
     guards.rejects_outside(rep, 'R-GUARD', f, evg.raise_conds, domain, {'east': 1, 'north': 1, 'zone': 1}, lambda nd: where(f, nd), 'the accepted grid domain')
+    # the same for the Integrated Survey Grid in the NORTHERN hemisphere (a northern northing carries no false northing: it runs to
+    # 9.3e6 m at 84 N whatever the false northing of the projection is)
+    evi = Evaluator(repo, opaque={'psfandgridconv', 'beta_coeff', 'alpha_coeff', 'rect_radius'})
+    cm_ = repo.module('geodepy.constants')
+    try:
+        evi.call_function(f, {ps[0]: C(551), ps[1]: Rat.sym('east'), ps[2]: Rat.sym('north'), ps[3]: Str('north'), ps[4]: evi.global_value(cm_, 'ans'), ps[5]: evi.global_value(cm_, 'isg')})
+        dom_i = {'east': (200000, 400000), 'north': (0, 9300000)}
+        for q_, c_, n_ in evi.raise_conds:
+            if isinstance(c_, Rat):
+                for k_ in c_.atoms(deep=True):
+                    a_ = alg.TABLE.atoms[k_]
+                    if a_.kind == 'sym' and '@L' in a_.name and a_.name.split('@')[0] in ('t', 'tn'):
+                        dom_i[a_.name] = (F(math.tan(math.radians(-84.0))), F(0))
+        guards.guard_rule(rep, 'R-GUARD', f, evi.raise_conds, dom_i, 'the ISG strip 55/1 in the northern hemisphere (northings 0..9 300 000 m: latitudes to 84 N)',
+                          lambda nd: where(f, nd), suffix='[isg,north]')
+    except AnalysisError as e_:
+        rep.undecided('R-GUARD', 'R-GUARD::geodepy/convert.py::grid2geo::isg-north', where(f, f.node), 'ISG / northern evaluation failed: %s' % e_)
     common.isg_zone_rule(repo, rep, 'grid2geo', ps[0], False, {ps[1]: Rat.sym('east'), ps[2]: Rat.sym('north')})
     rep.floor('R-GUARD', 19, 'zone, easting, northing, hemisphere; raising tests as predicates; rejection outside; ten ISG zones and their neighbours')
     nw = find_newton(f)
@@ -591,6 +608,11 @@ def run(repo, rep):
     common.tm_division_rules(repo, rep)
     # geographic -> grid -> geographic goes through the automatic zone of geo2grid: zone / central meridian on the lattice
     common.zone_table_rule(repo, rep)
+    # ... and through the forward series itself: its formula rules (all eight terms of both sums) are part of the round trip
+    from . import c01 as _c01
+    ctx1_ = _c01.formula_rules(repo, rep)
+    if ctx1_ is not None:
+        _c01.zone_rules(repo, rep, ctx1_)
     common.longitude_range_rule(repo, rep)
     common.standalone_longitude_rule(repo, rep)
     common.validated_copy_rule(repo, rep, [('geodepy.convert', 'grid2geo')])
